@@ -134,6 +134,11 @@ def rejectedItems (deps : List ModuleExports) (imp : Import) (items : List Impor
 def rejectedItemsByLocalName (deps : List ModuleExports) (imp : Import) (items : List ImportItem) : List String :=
   rejectedNames deps imp (items.map (·.localName))
 
+/-- `import_module`: a name of a dependency that the importer may use without naming it in the import — exactly the
+exported ones (a private declaration is never registered in the importer's symbol table). -/
+def bareKnown (deps : List ModuleExports) (name : String) : Bool :=
+  deps.any fun d => d.publicNames.contains name
+
 /-! ### What a module exports (`exported_symbols`, src/frontend/module.rs) -/
 
 inductive DKind where
